@@ -85,6 +85,30 @@ def run(chk, ctx):
                         eqs.add((f[1], f[2]))
             want = {("self.signals[EntryIndex::signal_index(elem(Iterator::zip([T]::iter(self.expected_indices), self.output_indices)).0)]", "Index::index(outputs, (elem(Iterator::zip([T]::iter(self.expected_indices), self.output_indices)).1 as Output).0).signal")}
             chk.require(eqs == want, "ORG", "ORG:extract:identity-test-operands", "signals[expected.signal_index] == outputs[i].signal with the same i as the value read", "identity test compares %s" % sorted(eqs))
+            # exact decision table of the per-entry closure and of the function around it: no further condition,
+            # no other source for the value
+            Z = "elem(Iterator::zip([T]::iter(self.expected_indices), self.output_indices))"
+            OI = "Index::index(outputs, (%s.1 as Output).0)" % Z
+            SG = "self.signals[EntryIndex::signal_index(%s.0)]" % Z
+            a_, b_ = sorted(["%s.signal" % OI, SG])
+            V = "variant(%s.1)" % Z
+            full = set()
+            for pi in tab.paths(P, c, to_return_only=True):
+                r = terms.strip(pi.ret())
+                sh = ordrules.shape_of(r)
+                full.add((tab.path_facts(pi), sh if sh in ("Ok", "Err") else canon(r), canon(r[3][0][1]) if sh == "Ok" and r[0] == "agg" and r[3] else ""))
+            want_full = {(frozenset([(V, ("None",))]), "Ok", "OutputValue::X{}"),
+                         (frozenset([(V, ("Output",)), ("Eq(%s, %s)" % (a_, b_), True)]), "Ok", "%s.value" % OI),
+                         (frozenset([(V, ("Output",)), ("Ne(%s, %s)" % (a_, b_), True)]), "Err", ""),
+                         (frozenset([(V, ("Virtual",))]), "Result::map_err(Result::map(Expr::eval((%s.1 as Virtual).0, ctx), fn:value::OutputValue::Value), closure({closure#0}))" % Z, "")}
+            chk.require(full == want_full, "TAB", "TAB:extract:exact-per-entry-table", "None => X; Output(i) => outputs[i].value iff outputs[i].signal is the entry's signal, else Err; Virtual => eval; no other condition", "the per-entry extraction behaves as %s" % sorted(full, key=str))
+            outer = set()
+            for pi in tab.paths(P, ex, to_return_only=True):
+                outer.add((tab.path_facts(pi), ordrules.ret_shape(pi) if ordrules.ret_shape(pi) in ("Ok", "Err") else canon(pi.ret())))
+            NL = sorted(["Vec::len(outputs)", "self.num_driver_outputs"])
+            want_outer = {(frozenset([("Eq(%s, %s)" % tuple(NL), True)]), "Iterator::collect(Iterator::map(Iterator::zip([T]::iter(self.expected_indices), self.output_indices), closure({closure#0})))"),
+                          (frozenset([("Ne(%s, %s)" % tuple(NL), True)]), "Err")}
+            chk.require(outer == want_outer, "TAB", "TAB:extract:exact-outer-table", "wrong answer length => Err; otherwise the collected per-entry results over zip(expected_indices, output_indices), nothing skipped", "extract_output_values behaves as %s" % sorted(outer, key=str))
             none = [r_ for r_ in rows if r_[0] == ("None",)]
             chk.require(len(none) == 1 and none[0][2] == "Ok" and none[0][3] == "OutputValue::X{}", "TAB", "TAB:extract:never-supplied-is-X", "OutputEntryIndex::None => Ok(X)", "None arm: %s" % none)
             # length test dominates the closure
